@@ -111,9 +111,9 @@ macro_rules! c06_rect_paths {
     };
 }
 #[cfg(feature = "thorough")]
-c06_rect_paths!(c01_c02_c06_t_rect_paths_both, 0, 2, 1, 18);
+c06_rect_paths!(c01_c02_c06_t_rect_paths_both, 0, 2, 1, 24);
 #[cfg(feature = "thorough")]
-c06_rect_paths!(c01_c02_c06_t_rect_paths_stroke, 2, 2, 1, 18);
+c06_rect_paths!(c01_c02_c06_t_rect_paths_stroke, 2, 2, 1, 24);
 
 // ------------------------------------------------------------------ regime G: listed geometry + stroke
 // geometry (width, alignment), symbolic colour presence/values and probe
@@ -259,7 +259,7 @@ pub mod kernels {
     #[cfg(feature = "thorough")]
     c06_row!(c06_t_k_ellipse_row_7, Ellipse::new(anchor(), size(3)), hk::ellipse_styled_scanline_at, 4, 2, 16);
     #[cfg(feature = "thorough")]
-    c06_row!(c06_t_k_rrect_row_3, RoundedRectangle::with_equal_corners(Rectangle::new(anchor(), size(2)), size(1)), hk::rounded_rectangle_styled_scanline_at, 3, 1, 9);
+    c06_row!(c06_t_k_rrect_row_3, RoundedRectangle::with_equal_corners(Rectangle::new(anchor(), size(2)), size(1)), hk::rounded_rectangle_styled_scanline_at, 3, 1, 14);
 }
 
 /// Reachability twin.
